@@ -42,6 +42,12 @@ CLI = {
          "A fixed tree x 27 argument lists x ignore/hidden/glob option combinations (pinned) and seeded random trees and ignore files; a file is judged only when every reading of the documentation agrees."),
  "C20": ("exploration", "7 C20", "exhaustive option x value x carrier enumeration (stylua.toml, .stylua.toml, flag in three casings, .editorconfig spellings) compared pairwise and with the library reference; malformed-configuration enumeration judged by exit status, snapshot and strace",
          "All 10 options x 48 documented values x every carrier are enumerated completely (423 executions, sensitivity of the probe file measured per option), 94 malformed configuration texts x 6 target shapes must exit 2 without touching a file; seeded multi-option configurations add reach."),
+ "C17": ("exploration", "7 C17", "stdin-mode executions of the real binary compared byte for byte with the library reference under the resolved configuration; exit-status model; strace write-intent log and snapshots",
+         "Valid / invalid / empty / CRLF / no-final-newline / multi-megabyte / chunk-fed inputs x option combinations x configuration placements for --stdin-filepath x ignore cases: stdout must equal the library output (or the input when ignored, or nothing on error), no write-intent syscall anywhere."),
+ "C18": ("exploration", "7 C18", "own unified-diff and JSON appliers applied to the printed output must reproduce the library's formatted text; summary/standard formats compared as file sets",
+         "All corpus files x widths, ~20 derived line-level edits per file (no final newline, CRLF, first/last line, many hunks, multi-line insertions/deletions), multi-file runs and seeded edit chains, in all four output formats."),
+ "C19": ("exploration", "7 C19", "stateless exploration of all feasible schedules of the exit-status operations and worker completion orders through the H3 schedule controller; thread-count x jitter sweep; ThreadSanitizer build (thorough)",
+         "For every scenario (missing path position x unparseable / unformatted / crash-injected / formatted files x check/write mode) every feasible interleaving of the main thread's and the output thread's exit-status operations with every worker completion order is executed on the real binary (complete at the granularity of the instrumented atomic; diverged schedules are inconclusive); final status and file contents must equal the model and the single-thread run. A sweep over --num-threads 1..16 with seeded jitter and a ThreadSanitizer build add reach; other shared state is only swept."),
 }
 NOT_YET = {}
 checks = []
